@@ -592,6 +592,13 @@ func (fx *FnCtx) execBlock(b *ssa.BasicBlock, incoming []*Edge, rets *[]retInfo)
 		case *ssa.Return:
 			// deferred calls have already been run by the RunDefers instruction that go/ssa places
 			// before every return of a function with defers
+			if site, isSite := fx.stmtSites[t]; isSite && fx.topLevel && fx.fc != nil {
+				env := fx.entryEnv(st)
+				env.oldEnv = fx.entryEnv(fx.entry)
+				env.pc = reach
+				env.lookup = fx.siteLookup(st, t)
+				fx.runGhost(site, st, env)
+			}
 			var vs []Value
 			for _, r := range t.Results {
 				vs = append(vs, fx.val(r))
